@@ -12,7 +12,7 @@
    (the translated reader on any valid RDF 1.1 stream).  No model term remains in the conclusion except as the index of the objects. *)
 From Coq Require Import Lia ZifyBool.
 From PJ.Model Require Import Base Terms Encoder Streams Decoder Spec Api.
-From PJ.Proofs Require Import DecoderProofs DecoderSound AgreeProofs EncStream EncRdflib EncRdflibQuads RdflibBytes.
+From PJ.Proofs Require Import DecoderProofs DecoderSound AgreeProofs EncStream EncGraphs EncRdflib EncRdflibQuads EncRdflibNs RdflibBytes.
 From PJ.Tie Require Import PyPrims StrN OptionsTie EncodeTie EncodeStmtTie FlowsTie StreamsTie DecodeTie DecoderBase DecoderTie StmtLayout.
 From PJ.Tie Require RdflibSerializeTie RdflibDriversTie RdflibParseTie RdflibRoundTrip.
 From PJ.Gen Require RdflibSerializeGen RdflibParseGen.
@@ -89,5 +89,197 @@ Proof.
   intros Hty. rewrite (H3 Hty). rewrite (pobjs_view _ (fixed_of_map _ (eview_quads _ Hrd))). reflexivity.
 Qed.
 
+(* a Dataset's graphs() through a GraphStream (GraphStream.graph per graph), read back by the flat parser as quads: the triples of each
+   graph under its name (graphs_inv: rdflib's default-graph IRI read as the default graph), graph by graph *)
+Theorem C02_end_to_end_rdflib_dataset_graphs :
+  forall (o : soptions) (s : stream) (gs gs' : WT.RStream) (k k' : W.Dataset SN) (d : rdata) (ys : list (pbval str)) (dl : bool),
+    stream_new GraphStream Rdflib o = Ok s -> cfg_ok o (st_logical s) -> p_nd (so_params o) = false -> fl_rows (st_flow s) = [] ->
+    WT.rRs gs s -> WT.RDs k d -> Forall WT.stmts_ok (map snd (rd_graphs d)) ->
+    graphs_rdf11 (rd_graphs d) = true -> graphs_rdflib (rd_graphs d) = true -> forallb (fun gts => rdf_graph_ok (fst gts)) (rd_graphs d) = true ->
+    W.graphs_stream_frames SN gs k = (Val tt, gs', k', ys) ->
+    exists po, (exists fs sk first more, ys = map (frame_msg (rmsg gput)) fs /\ skip_empty fs = (sk, first :: more) /\ Decoder.options_from_frame first dl = Ok po) /\
+      (RP.types_named (ParserOptions_stream_types (popts_obj po)) ->
+       R.parse_jelly_flat SN ys (popts_obj po) false = (Val tt, ys, pobjs (flat_map run_events (graphs_inv (rd_graphs d))))).
+Proof.
+  intros o s gs gs' k k' d ys dl Hnew Hcfg Hnd Hfresh HR HRd Hok H11 Hrd Hgn Hrun.
+  assert (Hc : st_class s = GraphStream).
+  { unfold stream_new in Hnew. destruct (negb _); [discriminate|]. destruct (match so_flow o with Some f => Ok f | None => infer_flow GraphStream o end); [|discriminate].
+    cbn [bind] in Hnew. destruct (negb _); [discriminate|]. injection Hnew as <-. reflexivity. }
+  pose proof (WT.rdflib_graphs_stream_frames_is_model k d gs s HRd Hok HR Hc) as H. rewrite Hrun in H.
+  destruct (rdf_graphs_stream_frames d s) as [s' evs] eqn:Em. destruct H as (_ & _ & -> & Hends).
+  pose proof (rdf_graphs_stream_valid o s s' d evs Hnew Hcfg Hnd Hfresh H11 Em (ends_val _ Hends)) as Hv.
+  pose proof (rdf_graphs_rows_rdf11 o s s' d evs Hnew Hcfg Hnd Hfresh (graphs_rdflib_lang _ H11 Hrd Hgn) Em (ends_val _ Hends)) as Hrows.
+  destruct (RT.C04_source_rdflib_flat_parser (emitted evs) _ dl Hv (rows_rdf11_frames _ Hrows)) as (po & (sk & first & more & H1 & H2) & H3).
+  exists po. split; [exists (emitted evs), sk, first, more; split; [reflexivity | split; assumption]|].
+  intros Hty. rewrite (H3 Hty). rewrite (pobjs_view _ (fixed_of_map _ (eview_graphs _ Hrd))). reflexivity.
+Qed.
+
+(* C14 / C02 with namespace declarations, whatever the option says: a Graph (its bindings as namespaces() hands them out, its triples)
+   through a TripleStream and back through the flat parser: the Prefix objects of the bindings when declarations are enabled (none
+   otherwise), in binding order, then exactly the Triple objects of the statements *)
+Lemma eview_prefixes o d : map eview (rdf_ns_events o d) = rdf_ns_events o d.
+Proof.
+  unfold rdf_ns_events. destruct (p_nd _); [|reflexivity]. destruct (rd_kind d); try reflexivity;
+    induction (rd_namespaces d) as [|[n i] l IH]; cbn [map]; try reflexivity; rewrite IH; reflexivity.
+Qed.
+
+Theorem C14_end_to_end_rdflib_graph :
+  forall (o : soptions) (s : stream) (gs gs' : WT.RStream) (k k' : W.Graph SN) (d : rdata) (ys : list (pbval str)) (dl : bool),
+    stream_new TripleStream Rdflib o = Ok s -> cfg_ok o (st_logical s) -> fl_rows (st_flow s) = [] ->
+    WT.rRs gs s -> WT.RGr k d -> WT.stmts_ok (rd_stmts d) -> stmts_rdf11 (rd_stmts d) = true -> stmts_rdflib (rd_stmts d) = true ->
+    W.triples_stream_frames SN gs k = (Val tt, gs', k', ys) ->
+    exists po, (exists fs sk first more, ys = map (frame_msg (rmsg gput)) fs /\ skip_empty fs = (sk, first :: more) /\ Decoder.options_from_frame first dl = Ok po) /\
+      (RP.types_named (ParserOptions_stream_types (popts_obj po)) ->
+       R.parse_jelly_flat SN ys (popts_obj po) false = (Val tt, ys, pobjs (rdf_ns_events o d ++ flat_map event_of_triple (rd_stmts d)))).
+Proof.
+  intros o s gs gs' k k' d ys dl Hnew Hcfg Hfresh HR HRd Hok H11 Hrd Hrun.
+  assert (Hc : st_class s <> QuadStream).
+  { unfold stream_new in Hnew. destruct (negb _); [discriminate|]. destruct (match so_flow o with Some f => Ok f | None => infer_flow TripleStream o end); [|discriminate].
+    cbn [bind] in Hnew. destruct (negb _); [discriminate|]. injection Hnew as <-. discriminate. }
+  assert (Hk : rd_kind d <> RDataset) by (destruct HRd as (Hkd & _); rewrite Hkd; discriminate).
+  pose proof (WT.rdflib_triples_stream_frames_is_model k d gs s HRd Hok HR Hc) as H. rewrite Hrun in H.
+  destruct (rdf_triples_stream_frames d s) as [s' evs] eqn:Em. destruct H as (_ & _ & -> & Hends).
+  pose proof (rdf_triples_stream_valid_ns o s s' d evs Hnew Hcfg Hfresh Hk H11 Em (ends_val _ Hends)) as Hv.
+  pose proof (rdf_triples_rows_rdf11_ns o s s' d evs Hnew Hfresh Hk (stmts_rdflib_lang _ Hrd) Em (ends_val _ Hends)) as Hrows.
+  destruct (RT.C04_source_rdflib_flat_parser (emitted evs) _ dl Hv (rows_rdf11_frames _ Hrows)) as (po & (sk & first & more & H1 & H2) & H3).
+  exists po. split; [exists (emitted evs), sk, first, more; split; [reflexivity | split; assumption]|].
+  intros Hty. rewrite (H3 Hty). rewrite (pobjs_view _ (fixed_of_map _ ltac:(rewrite map_app, eview_prefixes, (eview_triples _ Hrd); reflexivity))). reflexivity.
+Qed.
+
+(* C03 for the rdflib integration on translated source: what the translated rdflib drivers yield, when they end normally, is the list
+   of message objects of a stream the referee accepts, denoting the declarations (if enabled) and the statements *)
+Theorem C03_source_rdflib_triples_driver_writes_valid_streams :
+  forall (o : soptions) (s : stream) (gs gs' : WT.RStream) (k k' : W.Graph SN) (d : rdata) (ys : list (pbval str)),
+    stream_new TripleStream Rdflib o = Ok s -> cfg_ok o (st_logical s) -> fl_rows (st_flow s) = [] ->
+    WT.rRs gs s -> WT.RGr k d -> WT.stmts_ok (rd_stmts d) -> stmts_rdf11 (rd_stmts d) = true ->
+    W.triples_stream_frames SN gs k = (Val tt, gs', k', ys) ->
+    exists fs, ys = map (frame_msg (rmsg gput)) fs /\ run_frames fs = Valid (rdf_ns_events o d ++ flat_map event_of_triple (rd_stmts d)).
+Proof.
+  intros o s gs gs' k k' d ys Hnew Hcfg Hfresh HR HRd Hok H11 Hrun.
+  assert (Hc : st_class s <> QuadStream).
+  { unfold stream_new in Hnew. destruct (negb _); [discriminate|]. destruct (match so_flow o with Some f => Ok f | None => infer_flow TripleStream o end); [|discriminate].
+    cbn [bind] in Hnew. destruct (negb _); [discriminate|]. injection Hnew as <-. discriminate. }
+  assert (Hk : rd_kind d <> RDataset) by (destruct HRd as (Hkd & _); rewrite Hkd; discriminate).
+  pose proof (WT.rdflib_triples_stream_frames_is_model k d gs s HRd Hok HR Hc) as H. rewrite Hrun in H.
+  destruct (rdf_triples_stream_frames d s) as [s' evs] eqn:Em. destruct H as (_ & _ & -> & Hends).
+  exists (emitted evs). split; [reflexivity|].
+  exact (rdf_triples_stream_valid_ns o s s' d evs Hnew Hcfg Hfresh Hk H11 Em (ends_val _ Hends)).
+Qed.
+
+Theorem C03_source_rdflib_quads_driver_writes_valid_streams :
+  forall (o : soptions) (s : stream) (gs gs' : WT.RStream) (k k' : W.Dataset SN) (d : rdata) (ys : list (pbval str)),
+    stream_new QuadStream Rdflib o = Ok s -> cfg_ok o (st_logical s) -> p_nd (so_params o) = false -> fl_rows (st_flow s) = [] ->
+    WT.rRs gs s -> WT.RDs k d -> WT.stmts_ok (rd_stmts d) -> forallb spo_rdf11 (rd_stmts d) = true ->
+    W.quads_stream_frames SN gs k = (Val tt, gs', k', ys) ->
+    exists fs, ys = map (frame_msg (rmsg gput)) fs /\ run_frames fs = Valid (flat_map event_of_quad (map quad_inv (rd_stmts d))).
+Proof.
+  intros o s gs gs' k k' d ys Hnew Hcfg Hnd Hfresh HR HRd Hok H11 Hrun.
+  assert (Hc : st_class s = QuadStream).
+  { unfold stream_new in Hnew. destruct (negb _); [discriminate|]. destruct (match so_flow o with Some f => Ok f | None => infer_flow QuadStream o end); [|discriminate].
+    cbn [bind] in Hnew. destruct (negb _); [discriminate|]. injection Hnew as <-. reflexivity. }
+  pose proof (WT.rdflib_quads_stream_frames_is_model k d gs s HRd Hok HR Hc) as H. rewrite Hrun in H.
+  destruct (rdf_quads_stream_frames d s) as [s' evs] eqn:Em. destruct H as (_ & _ & -> & Hends).
+  exists (emitted evs). split; [reflexivity|].
+  exact (rdf_quads_stream_valid o s s' d evs Hnew Hcfg Hnd Hfresh H11 Em (ends_val _ Hends)).
+Qed.
+
+Theorem C03_source_rdflib_graphs_driver_writes_valid_streams :
+  forall (o : soptions) (s : stream) (gs gs' : WT.RStream) (k k' : W.Dataset SN) (d : rdata) (ys : list (pbval str)),
+    stream_new GraphStream Rdflib o = Ok s -> cfg_ok o (st_logical s) -> p_nd (so_params o) = false -> fl_rows (st_flow s) = [] ->
+    WT.rRs gs s -> WT.RDs k d -> Forall WT.stmts_ok (map snd (rd_graphs d)) -> graphs_rdf11 (rd_graphs d) = true ->
+    W.graphs_stream_frames SN gs k = (Val tt, gs', k', ys) ->
+    exists fs, ys = map (frame_msg (rmsg gput)) fs /\ run_frames fs = Valid (flat_map run_events (graphs_inv (rd_graphs d))).
+Proof.
+  intros o s gs gs' k k' d ys Hnew Hcfg Hnd Hfresh HR HRd Hok H11 Hrun.
+  assert (Hc : st_class s = GraphStream).
+  { unfold stream_new in Hnew. destruct (negb _); [discriminate|]. destruct (match so_flow o with Some f => Ok f | None => infer_flow GraphStream o end); [|discriminate].
+    cbn [bind] in Hnew. destruct (negb _); [discriminate|]. injection Hnew as <-. reflexivity. }
+  pose proof (WT.rdflib_graphs_stream_frames_is_model k d gs s HRd Hok HR Hc) as H. rewrite Hrun in H.
+  destruct (rdf_graphs_stream_frames d s) as [s' evs] eqn:Em. destruct H as (_ & _ & -> & Hends).
+  exists (emitted evs). split; [reflexivity|].
+  exact (rdf_graphs_stream_valid o s s' d evs Hnew Hcfg Hnd Hfresh H11 Em (ends_val _ Hends)).
+Qed.
+
+(* C06 for the rdflib integration on translated source: when a translated rdflib driver ends without raising, the flow of the stream
+   it leaves holds no row -- nothing that was accepted is left unwritten *)
+From PJ.Proofs Require Import RdflibFlush.
+From PJ.Gen Require Import FlowsGen StreamsGen.
+
+Lemma flow_empty_of_rRs (g : WT.RStream) (m : stream) : WT.rRs g m -> fl_rows (st_flow m) = [] -> FrameFlow_data (Stream_flow SN g) = [].
+Proof. intros (_ & _ & _ & _ & (_ & Hd & _) & _) He. rewrite Hd, He. reflexivity. Qed.
+
+Theorem C06_source_rdflib_nothing_left_behind_dataset :
+  forall (s : stream) (gs gs' : WT.RStream) (k k' : W.Dataset SN) (d : rdata) (ys : list (pbval str)),
+    WT.rRs gs s -> WT.RDs k d -> WT.stmts_ok (rd_stmts d) -> Forall WT.stmts_ok (map snd (rd_graphs d)) ->
+    W.stream_frames SN gs k = (Val tt, gs', k', ys) ->
+    FrameFlow_data (Stream_flow SN gs') = [].
+Proof.
+  intros s gs gs' k k' d ys HR HRd Hok Hoks Hrun.
+  pose proof (WT.rdflib_stream_frames_is_model k d gs s HRd Hok Hoks HR) as H. rewrite Hrun in H.
+  destruct (rdf_stream_frames d s) as [s' evs] eqn:Em. destruct H as (HR' & _ & _ & Hends).
+  apply (flow_empty_of_rRs gs' s' HR'). exact (rdf_stream_frames_flushes d s s' evs Em (ends_val _ Hends)).
+Qed.
+
+Theorem C06_source_rdflib_nothing_left_behind_graph :
+  forall (s : stream) (gs gs' : WT.RStream) (k k' : W.Graph SN) (d : rdata) (ys : list (pbval str)),
+    WT.rRs gs s -> WT.RGr k d -> WT.stmts_ok (rd_stmts d) -> st_class s = TripleStream ->
+    W.triples_stream_frames SN gs k = (Val tt, gs', k', ys) ->
+    FrameFlow_data (Stream_flow SN gs') = [].
+Proof.
+  intros s gs gs' k k' d ys HR HRd Hok Hc Hrun.
+  pose proof (WT.rdflib_triples_stream_frames_is_model k d gs s HRd Hok HR ltac:(rewrite Hc; discriminate)) as H. rewrite Hrun in H.
+  destruct (rdf_triples_stream_frames d s) as [s' evs] eqn:Em. destruct H as (HR' & _ & _ & Hends).
+  apply (flow_empty_of_rRs gs' s' HR'). apply (rdf_stream_frames_flushes d s s' evs); [unfold rdf_stream_frames; rewrite Hc; exact Em | exact (ends_val _ Hends)].
+Qed.
+
+(* C19 for the rdflib integration on translated source: the frames a translated rdflib driver yields pass the audit (nothing redundant,
+   no missed elision, no zero form) -- for statements in normal form (AudStream.stmts_nrm) *)
+From PJ.Model Require Import Audit.
+From PJ.Proofs Require Import AuditBase AudStmt AudStream RdflibAudit.
+
+Theorem C19_source_rdflib_triples_driver_audit_clean :
+  forall (o : soptions) (s : stream) (gs gs' : WT.RStream) (k k' : W.Graph SN) (d : rdata) (ys : list (pbval str)),
+    stream_new TripleStream Rdflib o = Ok s -> cfg_ok o (st_logical s) -> fl_rows (st_flow s) = [] ->
+    WT.rRs gs s -> WT.RGr k d -> WT.stmts_ok (rd_stmts d) -> stmts_rdf11 (rd_stmts d) = true -> stmts_nrm (rd_stmts d) ->
+    W.triples_stream_frames SN gs k = (Val tt, gs', k', ys) ->
+    exists fs cnt, ys = map (frame_msg (rmsg gput)) fs /\ audit (flat_map f_rows fs) = Some cnt /\ clean cnt.
+Proof.
+  intros o s gs gs' k k' d ys Hnew Hcfg Hfresh HR HRd Hok H11 Hnrm Hrun.
+  assert (Hc : st_class s <> QuadStream).
+  { unfold stream_new in Hnew. destruct (negb _); [discriminate|]. destruct (match so_flow o with Some f => Ok f | None => infer_flow TripleStream o end); [|discriminate].
+    cbn [bind] in Hnew. destruct (negb _); [discriminate|]. injection Hnew as <-. discriminate. }
+  assert (Hk : rd_kind d <> RDataset) by (destruct HRd as (Hkd & _); rewrite Hkd; discriminate).
+  pose proof (WT.rdflib_triples_stream_frames_is_model k d gs s HRd Hok HR Hc) as H. rewrite Hrun in H.
+  destruct (rdf_triples_stream_frames d s) as [s' evs] eqn:Em. destruct H as (_ & _ & -> & Hends).
+  destruct (rdf_triples_stream_clean o s s' d evs Hnew Hcfg Hfresh Hk H11 Hnrm Em (ends_val _ Hends)) as (cnt & Ha & Hcl).
+  exists (emitted evs), cnt. split; [reflexivity|]. split; assumption.
+Qed.
+
+Theorem C19_source_rdflib_quads_driver_audit_clean :
+  forall (o : soptions) (s : stream) (gs gs' : WT.RStream) (k k' : W.Dataset SN) (d : rdata) (ys : list (pbval str)),
+    stream_new QuadStream Rdflib o = Ok s -> cfg_ok o (st_logical s) -> fl_rows (st_flow s) = [] ->
+    WT.rRs gs s -> WT.RDs k d -> WT.stmts_ok (rd_stmts d) -> forallb spo_rdf11 (rd_stmts d) = true -> stmts_nrm (rd_stmts d) ->
+    W.quads_stream_frames SN gs k = (Val tt, gs', k', ys) ->
+    exists fs cnt, ys = map (frame_msg (rmsg gput)) fs /\ audit (flat_map f_rows fs) = Some cnt /\ clean cnt.
+Proof.
+  intros o s gs gs' k k' d ys Hnew Hcfg Hfresh HR HRd Hok H11 Hnrm Hrun.
+  assert (Hc : st_class s = QuadStream).
+  { unfold stream_new in Hnew. destruct (negb _); [discriminate|]. destruct (match so_flow o with Some f => Ok f | None => infer_flow QuadStream o end); [|discriminate].
+    cbn [bind] in Hnew. destruct (negb _); [discriminate|]. injection Hnew as <-. reflexivity. }
+  pose proof (WT.rdflib_quads_stream_frames_is_model k d gs s HRd Hok HR Hc) as H. rewrite Hrun in H.
+  destruct (rdf_quads_stream_frames d s) as [s' evs] eqn:Em. destruct H as (_ & _ & -> & Hends).
+  destruct (rdf_quads_stream_clean o s s' d evs Hnew Hcfg Hfresh H11 Hnrm Em (ends_val _ Hends)) as (cnt & Ha & Hcl).
+  exists (emitted evs), cnt. split; [reflexivity|]. split; assumption.
+Qed.
+
 Print Assumptions C02_end_to_end_rdflib_graph.
 Print Assumptions C02_end_to_end_rdflib_dataset_quads.
+Print Assumptions C02_end_to_end_rdflib_dataset_graphs.
+Print Assumptions C14_end_to_end_rdflib_graph.
+Print Assumptions C03_source_rdflib_triples_driver_writes_valid_streams.
+Print Assumptions C03_source_rdflib_quads_driver_writes_valid_streams.
+Print Assumptions C03_source_rdflib_graphs_driver_writes_valid_streams.
+Print Assumptions C06_source_rdflib_nothing_left_behind_dataset.
+Print Assumptions C06_source_rdflib_nothing_left_behind_graph.
+Print Assumptions C19_source_rdflib_triples_driver_audit_clean.
+Print Assumptions C19_source_rdflib_quads_driver_audit_clean.
